@@ -436,6 +436,10 @@ class Ctx:
                 what="proof obligation / correspondence no longer checks: " + ", ".join(o["name"] for o in broken),
                 replay=dict(broken_obligations=broken), signature=None, no_input=True))
         lines = []
+        import glob
+        for old_replay in glob.glob(os.path.join(VERIF, "replays", "%s-*.json" % self.pid)):
+            with contextlib.suppress(OSError):
+                os.remove(old_replay)
         for i, v in enumerate(self.violations):
             rp = os.path.join("replays", "%s-%d.json" % (self.pid, i))
             with open(os.path.join(VERIF, rp), "w") as f:
